@@ -7,6 +7,12 @@ import sys
 import logging
 
 logging.disable(logging.CRITICAL)
+try:  # kill -USR1 <pid> prints the Python stacks of all threads (diagnosing a stuck run)
+    import faulthandler
+    import signal
+    faulthandler.register(signal.SIGUSR1, all_threads=True)
+except Exception:
+    pass
 
 
 def main():
